@@ -2,7 +2,7 @@
 
 Usage (started by tools/props/C13.py with LD_PRELOAD=/verif/build/interpose/libinterpose.so):
     c13_driver.py <cases.json> <out.jsonl>
-cases.json = {"backend": "llvm"|"cffi", "cases": [{"id": int, "ops": [op, ...]}, ...]}
+cases.json = {"backend": "llvm"|"cffi", "cases": [{"id": int, "ops": [op, ...], "wf": [bool per op]}, ...]}
 op = ["eval", out, [ins...], shape] | ["build", out, shape] | ["alias", new, old] | ["structref", new, old]
    | ["read", n] | ["pickle", new, old] | ["del", n] | ["collect"]
 shape = "s0" (format s) | "s1" (format ss) | "e" (format s, empty result) | "d" | "0" (scalar)
@@ -191,7 +191,7 @@ class History:
         self.snap[struct_addr(t.cffi_tensor)] = (t.taco_indices, t.taco_vals)
         self.names[new] = t
 
-    def run_op(self, op) -> str:
+    def run_op(self, op, wf=True) -> str:
         kind = op[0]
         try:
             if kind == "eval":
@@ -214,17 +214,20 @@ class History:
                 raise RuntimeError(f"unknown op {op!r}")
         except (KeyError, TypeError, AttributeError, pickle.PicklingError) as ex:
             return "rejected:" + type(ex).__name__
-        except Exception as ex:  # anything else on a well-formed operation is a failure of the library
+        except Exception as ex:
+            if not wf:  # an ill-formed operation may be refused with any exception
+                return "rejected:" + type(ex).__name__
+            # anything else on a well-formed operation is a failure of the library
             self.oracle.append({"kind": "exception", "where": str(op), "error": f"{type(ex).__name__}: {ex}"[:300]})
             return "error:" + type(ex).__name__
         return "ok"
 
 
-def run_history(ops, evaluate):
+def run_history(ops, evaluate, wf=None):
     h = History(evaluate)
     steps = []
     for i, op in enumerate(ops):
-        oc = h.run_op(op)
+        oc = h.run_op(op, True if wf is None else wf[i])
         h.check(f"step {i} {op}", collected=(op[0] == "collect"))
         steps.append([oc, h.counts()])
     h.names.clear()
@@ -244,7 +247,7 @@ def main():
         for case in spec["cases"]:
             out.write(json.dumps({"id": case["id"], "begin": True}) + "\n")
             out.flush()
-            res = run_history(case["ops"], evaluate)
+            res = run_history(case["ops"], evaluate, case.get("wf"))
             res["id"] = case["id"]
             out.write(json.dumps(res) + "\n")
             out.flush()
